@@ -104,6 +104,10 @@ func (e *Enc) instr(fr *Frame, in ssa.Instruction) {
 			} else {
 				iv.Data = e.ptrTerm(vv)
 			}
+		case *SliceV:
+			// a boxed slice: its identity word is a function of the storage it views (equal slices box
+			// to equal words; lets a contract say WHICH slice a variadic ...interface{} argument carries)
+			iv.Data = e.boxSliceWord(vv)
 		default:
 			iv.Data = e.s.Const("box", SInt)
 		}
@@ -207,6 +211,11 @@ func (e *Enc) retype(v Val, t types.Type) Val {
 		}
 	}
 	return v
+}
+
+func (e *Enc) boxSliceWord(sv *SliceV) T {
+	f := e.s.DeclareFun("boxslice", []string{SInt, SInt, SInt}, SInt)
+	return App(SInt, f, sv.Base, sv.Off, sv.Len)
 }
 
 // noteAllocAt remembers the program point that created an allocation constant (iterfresh).
